@@ -10,6 +10,7 @@
 -/
 import FlacModel.Model.Metadata
 import FlacModel.Model.StreamReader
+import FlacModel.Gen.ShapesRd
 
 namespace Flac
 
